@@ -560,6 +560,9 @@ func (e *Engine) replay(o *Obligation, dir string) (string, string) {
 		if strings.HasPrefix(o.Func, "main.") {
 			file, pkg, test = "cli_bounded_test.go", "cmd/gts/", "TestVerifBoundedCLI"
 		}
+		if strings.HasPrefix(o.Func, "gts.AsLocation") {
+			file, test = "location_bounded_test.go", "TestVerifBoundedLocationText"
+		}
 		doc.TestCommand = "cd /repo/" + pkg + " && echo '{\"Replace\":{\"/repo/" + pkg + "zz_verif_bounded_test.go\":\"/verif/bounded/" + file + "\"}}' > /tmp/ov.json && GOFLAGS=-mod=mod go test -overlay /tmp/ov.json -vet=off -count=1 -v -run " + test + " ."
 		doc.Confirmed = true
 		return e.writeReplay(dir, doc), ""
